@@ -747,13 +747,22 @@ pub fn c05_scope(rep: &mut Report, seed: u64, thorough: bool) {
                 for h in some_hays {
                     for exec in [Exec::Bt, Exec::Pk] {
                         regress::verif::fuel::reset(budget);
-                        let r = guarded(std::panic::AssertUnwindSafe(|| find_all(&re, exec, h, 0, 0).0.len()));
-                        let (steps, peak, exhausted) = regress::verif::fuel::report();
+                        let mut r = guarded(std::panic::AssertUnwindSafe(|| find_all(&re, exec, h, 0, 0).0.len()));
+                        let (mut steps, mut peak, mut exhausted) = regress::verif::fuel::report();
                         regress::verif::fuel::reset(u64::MAX);
+                        if exhausted {
+                            // deeply nested lazy quantifiers legitimately need more than the small budget:
+                            // only a run that also exceeds the large one (or the stack bound) is reported
+                            rep.count("needed-more-than-the-small-budget");
+                            regress::verif::fuel::reset(FUEL_RETRY);
+                            r = guarded(std::panic::AssertUnwindSafe(|| find_all(&re, exec, h, 0, 0).0.len()));
+                            (steps, peak, exhausted) = regress::verif::fuel::report();
+                            regress::verif::fuel::reset(u64::MAX);
+                        }
                         rep.case(&format!("{} {} {:?}", pat, h, exec), steps > 20);
                         rep.count_n("steps", steps);
                         if exhausted {
-                            rep.violation("impl-vs-spec:C05", format!("{} did not finish within {} steps (peak stack {})", exec.name(), budget, peak), format!("/{}/ on {:?}", pat, h));
+                            rep.violation("impl-vs-spec:C05", format!("{} did not finish within {} steps (peak stack {})", exec.name(), steps.max(budget), peak), format!("/{}/ on {:?}", pat, h));
                         }
                         if let Err(m) = r {
                             rep.violation("panic:C06", format!("search panicked: {}", m), format!("/{}/ on {:?}", pat, h));
